@@ -258,6 +258,8 @@ def catalogue(feat, text, facts):
     for item in _iter_scen(facts):
         if item["kind"] == "outline":
             for ex in item["examples"]:
+                if ex["headings"] is None:
+                    continue        # an Examples section without a table has no row to spoil
                 ncols = len(ex["headings"])
                 for ln in [ex["heading_line"]] + ex["row_lines"]:
                     yield "table-row-cell-count", ln, u"      | " + u" | ".join([u"x"] * (ncols + 1)) + u" |", ln + 1
